@@ -325,3 +325,70 @@ Arguments slot {I}. Arguments keep_bottom {I}. Arguments self_of {I}. Arguments 
 Arguments objs_of {I}. Arguments TOk {I}. Arguments TFail {I}. Arguments TWarn {I}.
 Arguments c_site {I}. Arguments c_async {I}. Arguments c_obj {I}. Arguments c_exiting {I}. Arguments c_from {I}.
 Arguments Build_ctxv {I}. Arguments exits_on_stack {I}.
+
+(* ---------------------------------------------------------------- referents mode *)
+Section Referents.
+Variable I : Type.
+
+(* one entry of _contexts_active_by_referents; [r_site] is a ghost (which with statement the
+   bound method came from), observers see obj / is_async / is_exiting *)
+Record refv := { r_site : nat; r_obj : option I; r_async : bool; r_exiting : bool }.
+
+(* "a" in referent.__func__.__name__: the method pushed by BEFORE_ASYNC_WITH is __aexit__ *)
+Definition site_async (c : code) (s : nat) : bool :=
+  match at_ c s with IBeforeWith a => a | _ => false end.
+
+Definition referents (c : code) (t : table) (lasti : nat) (st : list (val I)) : list refv :=
+  map (fun x : nat * I => {| r_site := fst x; r_obj := Some (snd x); r_async := site_async c (fst x);
+                             r_exiting := false |}) (exits_on_stack st)
+  ++ match exiting c t lasti with
+     | ESome asy _ => [{| r_site := 0; r_obj := None; r_async := asy; r_exiting := true |}]
+     | _ => []
+     end.
+
+(* contexts_active_in_frame, as far as the choice of implementation goes: [enabled] is what
+   _check_trickery_available() returned, [guarded] whether the trickery call sits in a
+   try/except Exception that warns and falls back (regenerated from source) *)
+Inductive caf_res :=
+  | CafTrick (l : list (ctxv I)) (warned : bool)
+  | CafRef (l : list refv) (warned : bool)
+  | CafRaise.
+
+Definition contexts_active (guarded enabled : bool) (c : code) (t : table) (running : bool)
+           (lasti : nat) (st : list (val I)) : caf_res :=
+  if enabled then
+    match trickery c t running lasti st with
+    | TOk l => CafTrick l false
+    | TWarn => match with_info c t, blocks t lasti with
+               | Some w, Some bl =>
+                   match objs_of w (if running then keep_bottom (trim_depth t lasti) st else st) bl with
+                   | Some l => CafTrick l true
+                   | None => if guarded then CafRef (referents c t lasti st) true else CafRaise
+                   end
+               | _, _ => if guarded then CafRef (referents c t lasti st) true else CafRaise
+               end
+    | TFail => if guarded then CafRef (referents c t lasti st) true else CafRaise
+    end
+  else CafRef (referents c t lasti st) false.
+End Referents.
+Arguments referents {I}. Arguments r_site {I}. Arguments r_obj {I}. Arguments r_async {I}.
+Arguments r_exiting {I}. Arguments Build_refv {I}. Arguments contexts_active {I}.
+Arguments CafTrick {I}. Arguments CafRef {I}. Arguments CafRaise {I}.
+
+(* ---------------------------------------------------------------- set_trickery_enabled *)
+(* the global _can_use_trickery under _trickery_lock: a sequentially consistent register *)
+Inductive tr_op := TSet (v : option bool) | TCheck.
+(* [detect] = the result auto-detection gives on this interpreter *)
+Definition tr_step (detect : bool) (s : option bool) (o : tr_op) : option bool * option bool :=
+  match o with
+  | TSet v => (v, None)
+  | TCheck => match s with
+              | Some b => (s, Some b)
+              | None => (Some detect, Some detect)
+              end
+  end.
+Fixpoint tr_run (detect : bool) (s : option bool) (ops : list tr_op) : list (option bool) :=
+  match ops with
+  | [] => []
+  | o :: r => let '(s', out) := tr_step detect s o in out :: tr_run detect s' r
+  end.
